@@ -240,7 +240,7 @@ def rule_ag1(ctx: Ctx) -> RuleResult:
         if any(x is node for x in plain):
             return True
         # built ahead of the dispatch:  impl = ops.take(count)  ...  and every use of impl is inside a plain arm
-        env = _single_assignments(m, fn)
+        env = _single_assignments(m, node)
         for name, v in env.items():
             if any(x is node for x in ast.walk(v)):
                 loads = [x for x in ast.walk(fn) if isinstance(x, ast.Name) and x.id == name and isinstance(x.ctx, ast.Load)]
